@@ -178,27 +178,27 @@ theorem inv_todo_ctx' (cfg : Cfg) (s : St) (m : Nat) (f : MsgSt → MsgSt) (hinv
     (ht : (s.msg m).todo.isSome = true) (g : SameGhost (s.msg m) (f (s.msg m))) : Inv cfg (s.upd m f) :=
   inv_upd_grow cfg s m f hinv hclean (minv_todo_ctx cfg _ _ (hinv.msgs m) ht g) (fun x hx => by rw [g.e3]; exact hx)
 
-theorem step_inv (cfg : Cfg) (s s' : St) (e : Ev) (hinv : Inv cfg s) (hacc : accept cfg s e = some s') : Inv cfg s' := by
+theorem step_inv_core (cfg : Cfg) (s s' : St) (e : Ev) (hinv : Inv cfg s) (hacc : acceptCore cfg s e = some s') : Inv cfg s' := by
   cases e with
   | tick t =>
-    simp only [accept] at hacc
+    simp only [acceptCore] at hacc
     split at hacc
     · cases hacc; exact inv_volatile cfg s _ hinv rfl (fun _ hx => hx) rfl
     · cases hacc
   | restart =>
-    simp only [accept] at hacc
+    simp only [acceptCore] at hacc
     cases hacc
     refine ⟨fun k => hinv.msgs k, ?_, ?_, ?_⟩
     · intro m c i hm; simp at hm
     · intro m hc; simp at hc
     · intro m hc; simp at hc
   | utimes m c t =>
-    simp only [accept] at hacc
+    simp only [acceptCore] at hacc
     split at hacc
     · cases hacc; exact hinv
     · cases hacc
   | cleanResp b =>
-    simp only [accept] at hacc
+    simp only [acceptCore] at hacc
     split at hacc
     · cases hacc
       refine ⟨fun k => hinv.msgs k, fun m c i hm => hinv.may m c i hm, ?_, ?_⟩
@@ -206,7 +206,7 @@ theorem step_inv (cfg : Cfg) (s s' : St) (e : Ev) (hinv : Inv cfg s) (hacc : acc
       · intro m hc; simp at hc
     · cases hacc
   | rbytes c bs =>
-    simp only [accept] at hacc
+    simp only [acceptCore] at hacc
     split at hacc
     · cases hacc
     · rename_i hcl
@@ -217,7 +217,7 @@ theorem step_inv (cfg : Cfg) (s s' : St) (e : Ev) (hinv : Inv cfg s) (hacc : acc
         intro m c' i hm; simp at hm
       exact feedReports_inv cfg c bs _ h0 hclean
   | cmd c delnum m pos recip =>
-    simp only [accept] at hacc
+    simp only [acceptCore] at hacc
     split at hacc
     · cases hacc
     · split at hacc
@@ -230,13 +230,13 @@ theorem step_inv (cfg : Cfg) (s s' : St) (e : Ev) (hinv : Inv cfg s) (hacc : acc
             intro m' c' i hm; simp at hm
           · cases hacc
   | creatInfo m =>
-    simp only [accept] at hacc
+    simp only [acceptCore] at hacc
     split at hacc
     · rename_i hg; cases hacc
       exact inv_todo_ctx' cfg s m _ hinv (by simpa using hg.1) hg.2.1 (by constructor <;> rfl)
     · cases hacc
   | writeInfo m bs =>
-    simp only [accept] at hacc
+    simp only [acceptCore] at hacc
     split at hacc
     · split at hacc
       · rename_i hg; cases hacc
@@ -244,20 +244,20 @@ theorem step_inv (cfg : Cfg) (s s' : St) (e : Ev) (hinv : Inv cfg s) (hacc : acc
       · cases hacc
     · cases hacc
   | fsyncInfo m =>
-    simp only [accept] at hacc
+    simp only [acceptCore] at hacc
     split at hacc
     · rename_i hg; cases hacc
       exact inv_todo_ctx' cfg s m _ hinv (by simpa using hg.1) hg.2.1 (by constructor <;> rfl)
     · cases hacc
   | creatChan m c =>
-    simp only [accept] at hacc
+    simp only [acceptCore] at hacc
     split at hacc
     · rename_i hg; cases hacc
       exact inv_todo_ctx' cfg s m _ hinv (by simpa using hg.1) hg.2.1
         ((SameGhost.setChan _ c _).trans (SameGhost.setChanSynced _ c false))
     · cases hacc
   | writeChan m c bs =>
-    simp only [accept] at hacc
+    simp only [acceptCore] at hacc
     split at hacc
     · split at hacc
       · rename_i hg; cases hacc
@@ -266,19 +266,19 @@ theorem step_inv (cfg : Cfg) (s s' : St) (e : Ev) (hinv : Inv cfg s) (hacc : acc
       · cases hacc
     · cases hacc
   | fsyncChan m c =>
-    simp only [accept] at hacc
+    simp only [acceptCore] at hacc
     split at hacc
     · rename_i hg; cases hacc
       exact inv_todo_ctx' cfg s m _ hinv (by simpa using hg.1) hg.2.1 (SameGhost.setChanSynced _ c true)
     · cases hacc
   | crashTodoFiles m =>
-    simp only [accept] at hacc
+    simp only [acceptCore] at hacc
     split at hacc
     · rename_i hg; cases hacc
-      exact inv_todo_ctx' cfg s m _ hinv (by simpa using hg.1) hg.2.2 (by constructor <;> rfl)
+      exact inv_todo_ctx' cfg s m _ hinv (by simpa using hg.2.1) hg.2.2.2 (by constructor <;> rfl)
     · cases hacc
   | unlinkChan m c =>
-    simp only [accept] at hacc
+    simp only [acceptCore] at hacc
     split at hacc
     · cases hacc
     · rename_i hcl
@@ -301,7 +301,7 @@ theorem step_inv (cfg : Cfg) (s s' : St) (e : Ev) (hinv : Inv cfg s) (hacc : acc
               (fun x hx => by rw [fin_setChan]; exact hx)
           · cases hacc
   | unlinkInfo m =>
-    simp only [accept] at hacc
+    simp only [acceptCore] at hacc
     split at hacc
     · cases hacc
     · rename_i hg
@@ -322,7 +322,7 @@ theorem step_inv (cfg : Cfg) (s s' : St) (e : Ev) (hinv : Inv cfg s) (hacc : acc
             (fun x hx => hx)
         · cases hacc
   | markD m c pos =>
-    simp only [accept] at hacc
+    simp only [acceptCore] at hacc
     split at hacc
     · cases hacc
     · rename_i hcl
@@ -340,7 +340,7 @@ theorem step_inv (cfg : Cfg) (s s' : St) (e : Ev) (hinv : Inv cfg s) (hacc : acc
               (fun x hx => by rw [fin_setChan]; exact hx)
           · cases hacc
   | bounceInject m ok env body =>
-    simp only [accept] at hacc
+    simp only [acceptCore] at hacc
     split at hacc
     · cases hacc
     · rename_i hcl
@@ -353,7 +353,7 @@ theorem step_inv (cfg : Cfg) (s s' : St) (e : Ev) (hinv : Inv cfg s) (hacc : acc
         · cases hacc
       · cases hacc
   | unlinkBounce m =>
-    simp only [accept] at hacc
+    simp only [acceptCore] at hacc
     split at hacc
     · cases hacc
     · rename_i hcl
@@ -376,25 +376,25 @@ theorem step_inv (cfg : Cfg) (s s' : St) (e : Ev) (hinv : Inv cfg s) (hacc : acc
         · cases hacc
       · cases hacc
   | crashMarks m c marks =>
-    simp only [accept] at hacc
+    simp only [acceptCore] at hacc
     split at hacc
     · cases hacc
     · rename_i rs hch
       split at hacc
       · rename_i hg; cases hacc
-        exact inv_upd_grow cfg s m _ hinv (by simpa using hg.1)
-          (minv_crashMarks cfg _ c rs marks (hinv.msgs m) hch hg.2.2.1 hg.2.2.2)
+        exact inv_upd_grow cfg s m _ hinv (by simpa using hg.2.1)
+          (minv_crashMarks cfg _ c rs marks (hinv.msgs m) hch hg.2.2.2.1 hg.2.2.2.2)
           (fun x hx => by rw [fin_setChan]; exact hx)
       · cases hacc
   | crashBounce m content =>
-    simp only [accept] at hacc
+    simp only [acceptCore] at hacc
     split at hacc
     · rename_i hg; cases hacc
-      exact inv_upd_grow cfg s m _ hinv (by simpa using hg.1)
-        (minv_crashBounce cfg _ content (hinv.msgs m) (hg.2.2.elim Or.inl (fun h => Or.inr ⟨h.1, h.2.1⟩))) (fun x hx => hx)
+      exact inv_upd_grow cfg s m _ hinv (by simpa using hg.2.1)
+        (minv_crashBounce cfg _ content (hinv.msgs m) (hg.2.2.2.elim Or.inl (fun h => Or.inr ⟨h.1, h.2.1⟩))) (fun x hx => hx)
     · cases hacc
   | appendBounce m bs =>
-    simp only [accept] at hacc
+    simp only [acceptCore] at hacc
     split at hacc
     · cases hacc
     · rename_i hcl
@@ -407,7 +407,7 @@ theorem step_inv (cfg : Cfg) (s s' : St) (e : Ev) (hinv : Inv cfg s) (hacc : acc
           exact appendBounce_inv cfg s m n bs hinv hclean hg.2.1
         · cases hacc
   | newmsg m sender rcpts =>
-    simp only [accept] at hacc
+    simp only [acceptCore] at hacc
     split at hacc
     · rename_i hg; cases hacc
       have hclean : s.clean = none := by simpa using hg.1
@@ -423,7 +423,7 @@ theorem step_inv (cfg : Cfg) (s s' : St) (e : Ev) (hinv : Inv cfg s) (hacc : acc
         rw [hclean] at this; cases this
     · cases hacc
   | cUnlinkMess m =>
-    simp only [accept] at hacc
+    simp only [acceptCore] at hacc
     split at hacc
     · split at hacc
       · rename_i k hcl hk
@@ -444,7 +444,7 @@ theorem step_inv (cfg : Cfg) (s s' : St) (e : Ev) (hinv : Inv cfg s) (hacc : acc
       · cases hacc
     · cases hacc
   | cUnlinkTodo m =>
-    simp only [accept] at hacc
+    simp only [acceptCore] at hacc
     split at hacc
     · rename_i k hcl
       split at hacc
@@ -458,7 +458,7 @@ theorem step_inv (cfg : Cfg) (s s' : St) (e : Ev) (hinv : Inv cfg s) (hacc : acc
       · cases hacc
     · cases hacc
   | cUnlinkIntd m =>
-    simp only [accept] at hacc
+    simp only [acceptCore] at hacc
     have key : ∀ (hcl : s.clean.isSome = true), Inv cfg (s.upd m (fun ms => { ms with intd := false })) := by
       intro _
       refine inv_upd cfg s m (fun ms => { ms with intd := false }) _ (fun k => St.msg_upd s m k _) hinv
@@ -491,7 +491,7 @@ theorem step_inv (cfg : Cfg) (s s' : St) (e : Ev) (hinv : Inv cfg s) (hacc : acc
       · cases hacc
     · cases hacc
   | cleanReq bs =>
-    simp only [accept] at hacc
+    simp only [acceptCore] at hacc
     split at hacc
     · cases hacc
     · rename_i hcl
@@ -537,5 +537,15 @@ theorem step_inv (cfg : Cfg) (s s' : St) (e : Ev) (hinv : Inv cfg s) (hacc : acc
               exact ⟨by simpa using hg.1, by simpa using hg.2.1⟩
             · cases hacc
           · cases hacc
+
+/-- the invariant does not speak about the crash mode -/
+theorem inv_before (cfg : Cfg) (s : St) (e : Ev) (h : Inv cfg s) : Inv cfg (s.before e) :=
+  inv_volatile cfg s _ h (St.before_tab s e) (fun x hx => by rw [St.before_mayMark] at hx; exact hx) (St.before_clean s e)
+
+theorem inv_calm (cfg : Cfg) (s : St) (h : Inv cfg s) : Inv cfg s.calm :=
+  inv_volatile cfg s _ h rfl (fun _ hx => hx) rfl
+
+theorem step_inv (cfg : Cfg) (s s' : St) (e : Ev) (hinv : Inv cfg s) (hacc : accept cfg s e = some s') : Inv cfg s' :=
+  step_inv_core cfg (s.before e) s' e (inv_before cfg s e hinv) hacc
 
 end Nq.Lemmas.DI
